@@ -80,7 +80,7 @@ def probe(kind: str, tier: str):
 
 
 PROBES = ("string", "hex", "float", "int_range", "bool", "choice3", "set_target", "wset_target", "promptless_before", "multi_def", "select_imply", "nonbool_in_choice", "float_noncanonical", "hex_int_indirect")
-CONTEXTS = ("plain", "prompt_if_before", "prompt_if_after", "depends", "menu_depends", "menu_visible", "if", "comment_menu")
+CONTEXTS = ("plain", "prompt_if_before", "prompt_if_after", "depends", "menu_depends", "menu_visible", "if", "comment_menu", "pragma_like_titles")
 
 
 def wrap(nodes: List[Any], ctx: str) -> List[Any]:
@@ -105,6 +105,10 @@ def wrap(nodes: List[Any], ctx: str) -> List[Any]:
         return [A, Menu(title="sub menu", visible_if=[S("A")], children=nodes)]
     if ctx == "if":
         return [A, If(cond=S("A"), children=nodes)]
+    if ctx == "pragma_like_titles":
+        # menu / comment titles that read like the `# default:` pragma or like assignment lines once written as `# <title>`
+        # (titles that look like whole assignment lines are an ambiguity of the sdkconfig format itself and not generated)
+        return [Comment(text="default:"), A, Menu(title="default:", children=[Comment(text="default:"), Menu(title="inner", visible_if=[S("A")], children=nodes)])]
     if ctx == "comment_menu":
         return [Comment(text="first", depends=[S("A")]), A, Menu(title="outer", children=[Comment(text="inner"), Menu(title="inner menu", visible_if=[S("A")], children=nodes)])]
     raise ValueError(ctx)
